@@ -88,7 +88,8 @@ def p_lazy(ctx):
     parallel(lambda n: run_tlc_config(n, emit=True), names)
     for n in names:
         stages.stage_lazy(ctx, n, max_run=150, bases=(0,) if ctx.quick() else (0, core.BASES["2^64-40"]))
-    lazy_index_stage(ctx)
+    if not stages.WARM:
+        lazy_index_stage(ctx)
     ctx.assumptions.append("the hook-reported get() branch is coverage evidence only; verdicts use public answers")
     return "model_checking", RULE_LOOKUP + "; schedules: the spec's Lookup actions are interleaved with edits in every order the bounded model allows"
 
@@ -172,6 +173,20 @@ def p_auxwire(ctx):
 def p_auxlife(ctx):
     from . import p_auxlife as m
     return m.run(ctx)
+
+
+def _proto(fn):
+    def run(ctx):
+        from . import p_proto
+        return getattr(p_proto, fn)(ctx)
+    return run
+
+
+PLANS["C01"] = _proto("plan_c01")
+PLANS["C02"] = _proto("plan_c02")
+PLANS["C09"] = _proto("plan_c09")
+PLANS["C17"] = _proto("plan_c17")
+PLANS["C18"] = _proto("plan_c18")
 
 
 def replay_file(gtirb, prop, path):
